@@ -368,3 +368,4 @@ for _p in ("C01", "C10"):
     H(_p, "html/layout", "VxH_C01_floats", mode="real", reach=["laid-out"], bounds="two left floats in a 200px container: the first 150px wide with symbolic height in [0,20] and margin-bottom in [-20,5] (margin box height >= 0), the second with symbolic width in [10,190]; then a block", quick={"maxsteps": 30000000, "shards": 4})
 H("C02", "html/layout", "VxH_C02_line_floats", reach=["laid-out"], bounds="two block floats (the second 80 / 150px wide, 5 / 15 / 50px high) followed by a paragraph 'xx <tall span> <float> zz' in a 200px body; tall span font size 10 / 20 / 30px, line float width 20 / 100 / 190px; VxAhem font model", quick={"maxsteps": 200000000, "shards": 6})
 H("C15", "html/layout", "VxH_C15_broken_floats", reach=["laid-out", "all-floats-continue"], bounds="2..3 left floats of two 60px blocks each on 100px pages (every float is broken by the first page break); the map of broken out-of-flow boxes visited in every order, two independent runs", quick={"maxsteps": 300000000, "shards": 4})
+H("C02", "html/layout", "VxH_C02_broken_float", reach=["laid-out"], bounds="a left float holding 2..3 blocks of 60px on 100px pages, followed or not by in-flow content", quick={"maxsteps": 200000000})
